@@ -179,7 +179,9 @@ pub fn normals() -> Vec<Vector3> {
     n
 }
 
-pub const FRACS: [f64; 6] = [-0.1, 0.13, 0.37, 0.501, 0.71, 1.1];
+/// offsets as fractions of the extent along the normal; values >= 2 are absolute distances from the
+/// lowest (2 + d) or highest (3 + d) vertex: planes nipping a corner or shaving a sliver
+pub const FRACS: [f64; 9] = [-0.1, 0.13, 0.37, 0.501, 0.71, 1.1, 2.0005, 2.002, 3.0005];
 
 struct Setup {
     v: Vec<Point3>,
@@ -199,7 +201,13 @@ fn setup(case: &Case) -> Setup {
     let ds: Vec<f64> = v0.iter().map(|p| n.dot(&p.coords)).collect();
     let lo = ds.iter().cloned().fold(f64::MAX, f64::min);
     let hi = ds.iter().cloned().fold(f64::MIN, f64::max);
-    let d = lo + (hi - lo) * case.frac;
+    let d = if case.frac >= 3.0 {
+        hi - (case.frac - 3.0)
+    } else if case.frac >= 2.0 {
+        lo + (case.frac - 2.0)
+    } else {
+        lo + (hi - lo) * case.frac
+    };
     let local = Plane3::new(n, d);
     let plane = local.transform_by(&iso);
     let v: Vec<Point3> = v0.iter().map(|p| iso * p).collect();
@@ -236,7 +244,8 @@ pub fn judge(case: &Case, l: &mut Local) {
         return;
     }
     l.eval();
-    l.bucket(if degenerate { "plane through a vertex (degenerate probe)" } else if case.frac < 0.0 || case.frac > 1.0 { "plane missing the mesh" } else { "plane crossing the mesh" });
+    let crossing = s.sd.iter().any(|x| *x > 0.0) && s.sd.iter().any(|x| *x < 0.0);
+    l.bucket(if degenerate { "plane through a vertex (degenerate probe)" } else if !crossing { "plane missing the mesh" } else if case.frac >= 2.0 { "plane nipping a corner or shaving a sliver" } else { "plane crossing the mesh" });
     if case.pose == 1 && case.normal == 3 {
         l.sample(mk);
     }
@@ -326,7 +335,7 @@ pub fn judge(case: &Case, l: &mut Local) {
         }
         Ok(SplitResult::Pair(a, b)) => {
             if !degenerate {
-                l.check("split reports a pair only when vertices lie on both sides", "", (0.0..=1.0).contains(&case.frac), mk, String::new);
+                l.check("split reports a pair only when vertices lie on both sides", "", crossing, mk, String::new);
                 l.check("areas of the two parts sum to the original area", "", (area(&a) + area(&b) - area(&s.mesh)).abs() <= 1e-6 * area(&s.mesh), mk, || format!("{} + {} vs {}", area(&a), area(&b), area(&s.mesh)));
             }
             let sa: Vec<f64> = a.vertices().iter().map(|p| s.plane.signed_distance_to_point(p)).collect();
@@ -429,7 +438,7 @@ pub fn run(tier: Tier) -> i32 {
     let mut cx = Ctx::new("C13", tier, "exploration");
     cx.rule = "meshes: 3 boxes, 3- and 6-gon prisms, capped 6- and 16-gon cylinders, octahedral spheres (1 and 2 subdivisions), 8x6 torus, tetrahedron (watertight) and open tube, quad, 4 height fields x 3 (thorough 5) poses x 32 plane normals (26 lattice + 6 skew) x 6 offset fractions (-0.1 .. 1.1); each (mesh, plane) pair is classified by a reference computation before the call: pairs whose section polyline would be open (a boundary edge straddles the plane) form the open-section class, probed by 3 representatives in subprocesses limited to 2 GB of address space with a 20 s watchdog; all other pairs run in-process. distinct = distinct (mesh, pose, plane) cases".into();
     cx.bounds = json!({"meshes": CLOSED.len() + OPEN.len(), "poses": tier.pick(3, 5), "normals": normals().len(), "fractions": FRACS});
-    cx.require(&["plane crossing the mesh", "plane missing the mesh", "plane through a vertex (degenerate probe)", "open-section class (not executed in-process)"]);
+    cx.require(&["plane nipping a corner or shaving a sliver", "plane crossing the mesh", "plane missing the mesh", "plane through a vertex (degenerate probe)", "open-section class (not executed in-process)"]);
     cx.assume("planes within 1e-5 of a mesh vertex are degenerate probes: only 'returns, vertices on the plane and on the surface' is judged there");
     let cs = cases(tier);
     let l = sweep(&cs, judge);
